@@ -472,6 +472,7 @@ class Boss:
 
     S3_closing.upon(rx_unwelcome, enter=S3_closing, outputs=[])
     S3_closing.upon(got_code, enter=S3_closing, outputs=[])
+    S3_closing.upon(got_key, enter=S3_closing, outputs=[])
     S3_closing.upon(rx_error, enter=S3_closing, outputs=[])
     S3_closing.upon(got_verifier, enter=S3_closing, outputs=[])
     S3_closing.upon(_got_phase, enter=S3_closing, outputs=[])
@@ -486,6 +487,7 @@ class Boss:
 
     S4_closed.upon(rx_unwelcome, enter=S4_closed, outputs=[])
     S4_closed.upon(got_code, enter=S4_closed, outputs=[])
+    S4_closed.upon(got_key, enter=S4_closed, outputs=[])
     S4_closed.upon(got_verifier, enter=S4_closed, outputs=[])
     S4_closed.upon(_got_phase, enter=S4_closed, outputs=[])
     S4_closed.upon(_got_version, enter=S4_closed, outputs=[])
